@@ -94,6 +94,33 @@ def imported_events(m, fn, depth=0):
     return out
 
 
+def callee_events(m, fn, nid, depth=0):
+    """events of the library function called at node nid of fn (any member of the same object, open helper or not), with the
+    parameters replaced by the call's arguments; followed transitively to a small depth"""
+    out = []
+    n = fn.nodes[nid]
+    g = fn.unit.function_for_decl(n['callee']) if 'callee' in n else None
+    if g is None or depth > 3 or not g.tname.startswith(NS) or g.is_lambda:
+        return out
+    base = events_of(m, fn)
+    if n['k'] == 'CXXMemberCallExpr' and base.tt.t(n.get('obj', -1)) != ('this',):
+        return out
+    sub = {}
+    for ix, pd in enumerate(g.params):
+        if ix < len(n.get('args', [])):
+            sub[('var', pd)] = base.tt.t(n['args'][ix])
+    gev = events_of(m, g)
+    for e in gev.events:
+        args = tuple(subst(a, sub) if isinstance(a, tuple) else a for a in e.args)
+        out.append(Ev(e.kind, nid, args, fn, dict(e.extra, via=g.display(), inner_node=e.node)))
+    for cn in g.nodes:
+        if cn['k'] in ('CXXMemberCallExpr', 'CallExpr') and 'callee' in cn:
+            for e in callee_events(m, g, cn['i'], depth + 1):
+                args = tuple(subst(a, sub) if isinstance(a, tuple) else a for a in e.args)
+                out.append(Ev(e.kind, nid, args, fn, dict(e.extra)))
+    return out
+
+
 class Ctx:
     """Per-function context: terms, events, equality facts."""
 
@@ -805,6 +832,8 @@ class PairEngine:
                 continue
             if id(f) in OPEN_HELPERS.get(id(m), {}):
                 continue       # its events are checked in the callers
+            if f.unit.decl(f.decl).get('special'):
+                continue       # hand-written copy / move members transfer whole fields: judged member-wise by D-VALSEM
             ctx = Ctx(m, f)
             for nid, why in ctx.ev.unknown:
                 self.R('F-PAIR.U').sites += 1
